@@ -312,13 +312,20 @@ func (r *Report) WriteEvidence(dir string, seed int64, wall time.Duration, extra
 	for k, v := range extra {
 		cov[k] = v
 	}
+	assumptions := p.Assumptions
+	if assumptions == nil {
+		assumptions = []string{}
+	}
+	if p.NotDecided == nil {
+		cov["not_decided"] = []string{}
+	}
 	ev := map[string]interface{}{
 		"property_id": p.ID,
 		"tier":        r.Tier,
 		"seed":        seed,
 		"level":       "other",
 		"coverage":    cov,
-		"assumptions": p.Assumptions,
+		"assumptions": assumptions,
 		"wall_s":      wall.Seconds(),
 		"violations":  len(bad),
 	}
